@@ -83,6 +83,8 @@ def lexer(raw: str) -> _LEX_STREAM:
                 yield (TokenType.EQUAL, None)
             elif s == '"':
                 is_string = True
+    if is_string:
+        raise MesonException('unterminated string in cfg expression')
     val = raw[start:]
     if val:
         # This should always be an identifier
